@@ -92,6 +92,13 @@ Check merge_gap_is_added :
    EQUAL to what /verif/xlate extracts from the repository on this run ---- *)
 Theorem C19_src_merge_extents : forall l, x_merge_extents l = merge_extents l.
 Proof. exact x_merge_extents_ok. Qed.
+(* the translated request: it starts at byte 0 with no flags and its length reaches past every offset a file can have, for
+   the first page and for every later one — so `cover every byte that is not a hole` is not cut short by the request *)
+Theorem C19_src_fiemap_request_covers_the_file : forall start off,
+  x_fiemap_req_start <= start -> start <= off -> off < 2 ^ 63 -> off < start + x_fiemap_req_length.
+Proof. exact x_fiemap_request_covers_the_rest_of_the_file. Qed.
+Theorem C19_src_fiemap_request_from_zero : x_fiemap_req_start = 0 /\ x_fiemap_req_flags = 0.
+Proof. exact x_fiemap_request_starts_at_zero_unflagged. Qed.
 Theorem C19_src_fiemap_page_and_eof : x_fiemap_page_size = N.of_nat FIEMAP_PAGE_SIZE /\ x_lseek_eof_errnos = [ENXIO].
 Proof. split; [exact x_fiemap_page_size_ok|exact x_lseek_eof_ok]. Qed.
 
@@ -129,3 +136,5 @@ From XcpPins Require Import Pin_parblock_queue_file_blocks.
 Theorem C19_src_pin_parblock_queue_file_blocks : pin_unchanged name_parblock_queue_file_blocks.
 Proof. exact pin_parblock_queue_file_blocks. Qed.
 Print Assumptions C19_src_pin_parblock_queue_file_blocks.
+Print Assumptions C19_src_fiemap_request_covers_the_file.
+Print Assumptions C19_src_fiemap_request_from_zero.
